@@ -14,7 +14,9 @@ import (
 //	canid ins  N (kind from len)*N kind from len idx
 //	canid rem  N (kind from len)*N idx
 //	canid get  N (kind from len)*N st static att prio mid nid
-//	     st 1 = static CAN-ID set; att 0 = no sender, 1 = sender without bus, 2 = sender on a bus
+//	     st 1 = static CAN-ID set; att 0 = no sender, 1 = sender without bus, 2 = sender on a bus,
+//	     3..6 = attached like 2 and then detached again: 3 RemoveNodeInterface, 4 RemoveAllNodeInterfaces,
+//	     5 RemoveSentMessage, 6 RemoveAllSentMessages
 
 type canidStream struct{ baseStream }
 
@@ -101,7 +103,7 @@ func (canidStream) Gen(r *rand.Rand, tier string, idx int) []string {
 		case 3:
 			sc = append(sc, sprintf("canid rem %s %d", head, pick(r, -1, 0, n-1, n, r.Intn(n+1))))
 		case 4:
-			sc = append(sc, sprintf("canid get %s %d %d %d %d %d %d", head, r.Intn(2), rnd32(r), r.Intn(3), r.Intn(4), rnd32(r), rnd32(r)))
+			sc = append(sc, sprintf("canid get %s %d %d %d %d %d %d", head, r.Intn(2), rnd32(r), r.Intn(7), r.Intn(4), rnd32(r), rnd32(r)))
 		}
 	}
 	return sc
@@ -322,7 +324,7 @@ func (e *canidExec) Do(line string) string {
 			node := acmelib.NewNode("n", acmelib.NodeID(n), 1)
 			ni := node.Interfaces()[0]
 			bus := acmelib.NewBus("bus")
-			if att == 2 && (m%2 == 0) { // attach to the bus before or after adding the message
+			if att >= 2 && (m%2 == 0) { // attach to the bus before or after adding the message
 				if err := bus.AddNodeInterface(ni); err != nil {
 					return "err " + err.Error()
 				}
@@ -330,13 +332,27 @@ func (e *canidExec) Do(line string) string {
 			if err := ni.AddSentMessage(msg); err != nil {
 				return "err " + err.Error()
 			}
-			if att == 2 && (m%2 != 0) {
+			if att >= 2 && (m%2 != 0) {
 				if err := bus.AddNodeInterface(ni); err != nil {
 					return "err " + err.Error()
 				}
 			}
 			if !def {
 				bus.SetCANIDBuilder(b)
+			}
+			switch att { // detach again: the message is no longer attached to a bus
+			case 3:
+				if err := bus.RemoveNodeInterface(node.EntityID()); err != nil {
+					return "err " + err.Error()
+				}
+			case 4:
+				bus.RemoveAllNodeInterfaces()
+			case 5:
+				if err := ni.RemoveSentMessage(msg.EntityID()); err != nil {
+					return "err " + err.Error()
+				}
+			case 6:
+				ni.RemoveAllSentMessages()
 			}
 		}
 		if st == 1 && !staticFirst {
@@ -350,7 +366,7 @@ func (e *canidExec) Do(line string) string {
 		switch {
 		case st == 1:
 			want = static
-		case att < 2:
+		case att != 2:
 			want = m
 		default:
 			w, ok := specCalc(ops, p, m, n)
